@@ -19,6 +19,7 @@ import sys, os, json, subprocess, shutil, concurrent.futures
 
 ENV = dict(os.environ, GOFLAGS="-mod=mod", GOPROXY="off", GOSUMDB="off", GOTOOLCHAIN="local")
 BASE = "/tmp/seedns"
+SNAP = None
 
 
 def sh(cmd, cwd=None, timeout=7200, env=None):
@@ -29,6 +30,9 @@ def sh(cmd, cwd=None, timeout=7200, env=None):
 def in_ns(scr, script, env=None):
     mounts = (f"mount --bind {scr}/repo /repo && mount --bind {scr}/ev /verif/evidence && "
               f"mount --bind {scr}/rp /verif/replays && mount --bind {scr}/work /verif/.work && ")
+    if os.path.isdir(f"{scr}/harness"):
+        # a snapshot of the harness sources taken when the seed was started: the developer may go on editing /verif/harness
+        mounts += f"mount --bind {scr}/harness /verif/harness && "
     return sh(["unshare", "-m", "sh", "-c", mounts + script], env=env)
 
 
@@ -45,6 +49,8 @@ def one(d, checks, tier):
     res = {"seed": name, "property": prop}
     try:
         sh(["cp", "-r", "/repo", os.path.join(scr, "repo")])
+        if SNAP:
+            sh(["cp", "-r", SNAP, os.path.join(scr, "harness")])
         sh(["git", "-C", os.path.join(scr, "repo"), "checkout", "--", "."])
         has_demo = os.path.exists(os.path.join(d, "demo_test.go"))
         if has_demo:
@@ -97,9 +103,17 @@ def main():
         else:
             dirs.append(a[0]); a = a[1:]
     os.makedirs(BASE, exist_ok=True)
+    global SNAP
+    if os.environ.get("SEEDTEST_SNAPSHOT"):
+        # SEEDTEST_SNAPSHOT=1: copy /verif/harness once now; every seed of this run uses that copy
+        SNAP = os.path.join(BASE, "_harness_snapshot_%d" % os.getpid())
+        shutil.rmtree(SNAP, ignore_errors=True)
+        sh(["cp", "-r", "/verif/harness", SNAP])
     with concurrent.futures.ThreadPoolExecutor(max_workers=jobs) as ex:
         for r in ex.map(lambda d: one(d, checks, tier), dirs):
             print(json.dumps(r), flush=True)
+    if SNAP:
+        shutil.rmtree(SNAP, ignore_errors=True)
     try:
         os.rmdir(BASE)
     except OSError:
